@@ -34,6 +34,8 @@ pub static CATALOGUE: &[Entry] = &[
     Entry { name: "L5", prop: "C04", what: "write guard doing set(1); set(2) || get() and next_now()", quick_bound: 3, thorough_bound: -1, min_outcomes: 2, body: l5 },
     Entry { name: "L6", prop: "C04", what: "set(1); set(2) || subscriber thread calling next() until it sees 2", quick_bound: 3, thorough_bound: -1, min_outcomes: 2, body: l6 },
     Entry { name: "L7", prop: "C04", what: "subscribe() || set(1), then set(2)", quick_bound: 3, thorough_bound: -1, min_outcomes: 2, body: l7 },
+    Entry { name: "L8", prop: "C04", what: "next_now() || set(1): value handed out and observed version are one atomic read", quick_bound: 3, thorough_bound: -1, min_outcomes: 2, body: l8 },
+    Entry { name: "L9", prop: "C04", what: "next_ref_now() and get() || set(1); set(2): the subscriber ends on the final value", quick_bound: 3, thorough_bound: -1, min_outcomes: 2, body: l9 },
 ];
 
 // ---------------------------------------------------------------- C02
@@ -345,4 +347,41 @@ fn l7() {
     let q = poll_once(s.next());
     vassert(matches!(q, Poll::Ready(Some(2))), || format!("L7: after set(2) next() answers {q:?}"));
     outcome(format!("first_poll_ready={}", p.is_ready()));
+}
+
+fn l8() {
+    let a = SharedObservable::new(0u32);
+    let mut s = a.subscribe();
+    let t = thread::spawn(move || {
+        let v = s.next_now();
+        (v, s)
+    });
+    a.set(1);
+    let (v, mut s) = t.join().unwrap();
+    let p = poll_once(s.next());
+    // Either next_now saw the new value (and marked it observed), or it saw the
+    // old one and the update is still unobserved.
+    let ok = (v == 1 && p.is_pending()) || (v == 0 && matches!(p, Poll::Ready(Some(1))));
+    vassert(ok, || format!("L8: next_now() returned {v} while set(1) ran concurrently; afterwards next() answers {p:?} (the subscriber must end on the final value exactly once)"));
+    outcome(format!("next_now={v}"));
+}
+
+fn l9() {
+    let a = SharedObservable::new(0u32);
+    let mut s = a.subscribe();
+    let t = thread::spawn(move || {
+        let g = s.get();
+        let v = *s.next_ref_now();
+        (g, v, s)
+    });
+    a.set(1);
+    a.set(2);
+    let (g, v, mut s) = t.join().unwrap();
+    vassert(g <= v, || format!("L9: get() returned {g}, a later next_ref_now() returned {v}"));
+    let p = poll_once(s.next());
+    let ok = (v == 2 && p.is_pending()) || (v < 2 && matches!(p, Poll::Ready(Some(2))));
+    vassert(ok, || format!("L9: next_ref_now() returned {v} while set(1); set(2) ran concurrently; afterwards next() answers {p:?}"));
+    let q = poll_once(s.next());
+    vassert(q.is_pending(), || format!("L9: the final value was handed out, yet next() answers {q:?} again"));
+    outcome(format!("get={g} next_ref_now={v}"));
 }
